@@ -151,7 +151,7 @@ func (sh *SampledHeader) unmarshal(r io.Reader) error {
 	}
 
 	sh.Header = make([]byte, sh.HeaderLength+tmp)
-	if _, err = r.Read(sh.Header); err != nil {
+	if _, err = io.ReadFull(r, sh.Header); err != nil {
 		return err
 	}
 
